@@ -15,7 +15,7 @@ RULE = ('cross product flags subsets of {-,+,space,0} (d,i) / {-,#,0} (o,x,X, no
         'model (validated against libc on the fitting values of the same run) applied to Python digits; %Q (den only when needed, # on both parts), '
         '%N (negative size = negative), %M vs %l; %F e/f/g for values whose decimal expansion is exact within the precision, compared with libc on '
         'the equal double; asprintf/vasprintf at every output length 1..1300 (block exactly length+1 by the recorder); %Ff/%Fe of 1..12-limb integer parts with dyadic fractions against the exact decimal expansion (precision >= digits needed); mixed standard conversions; snprintf with every size 0..len+1 (fenced buffer); asprintf (block strlen+1 by the '
-        'recorder), sprintf, v* forms, obstack_printf; sscanf/fscanf read-back of everything printed, %Zi base detection, widths, %*, literals, %n, '
+        'recorder), sprintf, v* forms, obstack_printf incl. one object grown by up to 1000 appends across obstack chunks and single fields wider than a chunk; sscanf/fscanf read-back of everything printed, %Zi base detection, widths, %*, literals, %n, '
         'mismatch and EOF, mixed with standard conversions compared with libc sscanf. MPIR\'s documented deviations (signed o/x/X with +/space, empty '
         'precision, # with precision 0 on zero) are outside the C comparison. distinct = (conversion, flags, width class, precision class, value class)')
 ASSUMPTIONS = ['glibc snprintf/sscanf are the reference for C semantics', 'locale "C"']
@@ -79,6 +79,10 @@ def specs(rng, tier, wid, nw, env):
             for j in range(24 if q else 300):
                 k += 1
                 if k % nw == wid: yield ('bigfloat', limbs, conv, rng.getrandbits(48))
+    # gmp_obstack_printf: one growing object across obstack chunk boundaries (about 4 kB), with padding runs, and single fields wider than a chunk
+    for i in range(24 if q else 200):
+        k += 1
+        if k % nw == wid: yield ('obgrow', rng.getrandbits(48))
     # gmp_asprintf / gmp_vasprintf at every output length 1..1300 (the working buffer starts at 256 bytes and doubles: the final block must be
     # exactly length+1 whatever slack is left, A47) x format shapes with and without plain C conversions
     for L0 in range(1, 1301, 20):
@@ -145,6 +149,24 @@ def build(spec, env):
                 if size > 0 and got != want: out.append(('gmp_%s:wrong-truncated-content' % fn, 'fmt=%r size=%d got=%r want=%r' % (fmt, size, got, want)))
             return out
         return Case(cmds, check, len(body) + 3, ('snsize', fmt, fn, min(len(body), 40)))
+    if kind == 'obgrow':
+        z = gen.val(r, r.choice([1, 2, 3])); zz = r.choice([7, -255, 0, gen.val(r, 1)])
+        if r.random() < 0.6:
+            w1 = r.choice([11, 30, 64, 200]); w2 = r.choice([9, 25, 100]); reps = r.choice([60, 150, 400, 1000])
+            fmt = '[%%%dZd|%%d|%%-%dZd]' % (w1, w2); one = '[' + str(z).rjust(w1) + '|' + str(i_ := r.randint(-99999, 99999)) + '|' + str(zz).ljust(w2) + ']'
+            args = 'Z1 #%d Z2' % i_
+        else:
+            w1 = r.choice([4000, 4080, 4090, 4096, 4100, 5000, 9000, 20000]) + r.randint(0, 9); reps = r.choice([1, 1, 2, 3])
+            fl = r.choice(['', '-', '0']); fmt = '%%%s%dZd|' % (fl, w1); ds = str(z)
+            one = (ds.ljust(w1) if fl == '-' else (('-' if z < 0 else '') + ds.lstrip('-').rjust(w1 - (1 if z < 0 else 0), '0') if fl == '0' else ds.rjust(w1))) + '|'
+            args = 'Z1'
+        cmds = ['z Z1 %s' % hx(z), 'z Z2 %s' % hx(zz), 'pf obstack:%d - %s %s' % (reps, hexs(fmt), args)]
+        def check(rep, one=one, reps=reps, fmt=fmt):
+            a, _ = split_reply(rep[2]); got = unhexs(a[1]).decode('latin-1') if a[1] != '-' else ''
+            if got != one * reps or int(a[0]) != len(one):
+                bad = next((i for i in range(min(len(got), len(one) * reps)) if got[i] != (one * reps)[i]), min(len(got), len(one) * reps))
+                return [('gmp_obstack_printf:wrong', 'fmt=%r appended %d times: object of %d bytes differs from the expected %d bytes at byte %d; ret=%s want %d' % (fmt, reps, len(got), len(one) * reps, bad, a[0], len(one)))]
+        return Case(cmds, check, reps, ('obgrow', fmt[:6], reps))
     if kind == 'aslen':
         _, L0, L1, _s = spec
         cmds = []; exp = []
